@@ -70,10 +70,12 @@ def events_at(n: Node, out: str, self_name: str) -> List[str]:
     return ev
 
 
-def run(chk: Check) -> None:
+def adapters_deliver_exactly_once(chk: Check, rule: str = 'FUT-exactly-once', cancel_rule: str = 'FUT-cancel-before-result', adapters=None) -> int:
+    """Every acyclic path through an adapter callback resolves the adapter's output future exactly once (result, captured exception, cancellation or re-registration
+    on a nested future); nothing else writes it; the callback is registered once.  Returns the number of paths examined."""
     prog = chk.prog
     total_paths = 0
-    for qual, outer_q in ADAPTERS:
+    for qual, outer_q in (adapters or ADAPTERS):
         f = prog.try_func(qual)
         outer = prog.func(outer_q)
         rets_o = [s_ for s_ in outer.node.body if isinstance(s_, ast.Return)]
@@ -83,7 +85,7 @@ def run(chk: Check) -> None:
         if f is None or not own_future:
             # the adapter no longer resolves a future of its own in a callback this analysis can see (delegated to asyncio.wrap_future or the like):
             # exactly-once delivery and the identity of the delivered exception (kiwipy / concurrent CancelledError vs asyncio's) are not established
-            chk.ob('FUT-exactly-once', outer, False, f'{outer.short} no longer has the callback {qual.split(".")[-1]} that resolves its output future inside capture_exceptions: how (and whether) '
+            chk.ob(rule, outer, False, f'{outer.short} no longer has the callback {qual.split(".")[-1]} that resolves its output future inside capture_exceptions: how (and whether) '
                    'result, exception and cancellation reach the caller is left to code outside plumpy', kind='adapter-callback-present')
             continue
         out = output_future(chk, outer)
@@ -114,17 +116,17 @@ def run(chk: Check) -> None:
                 bad.append((f'{len(evs)} resolutions on one path', evs))
         total_paths += n_paths
         chk.units[f'paths:{f.short}'] = n_paths
-        chk.ob('FUT-exactly-once', f, not bad,
+        chk.ob(rule, f, not bad,
                f'{n_paths} acyclic paths: on each exactly one of set_result / captured exception / cancel / re-registration on the '
                f'nested future for output future "{out}"' + (f'; offending: {bad[:3]}' if bad else ''), kind='exactly-once-per-path')
         # the output future is written nowhere else in the enclosing function
         other = [c for c in calls_in_func(outer) if isinstance(c.func, ast.Attribute) and c.func.attr in ('set_result', 'set_exception', 'cancel')
                  and norm(c.func.value) == out]
-        chk.ob('FUT-exactly-once', outer, not other, f'"{out}" is resolved only by the adapter callback', kind='single-writer-function')
+        chk.ob(rule, outer, not other, f'"{out}" is resolved only by the adapter callback', kind='single-writer-function')
         # the callback is actually scheduled / registered exactly once
         refs = [n for n in ast.walk(outer.node) if isinstance(n, ast.Name) and n.id == f.name and isinstance(n.ctx, ast.Load)
                 and not any(n is x for x in ast.walk(f.node))]
-        chk.ob('FUT-exactly-once', outer, len(refs) == 1, f'{f.name} is scheduled / registered exactly once by {outer.name} ({len(refs)} references)',
+        chk.ob(rule, outer, len(refs) == 1, f'{f.name} is scheduled / registered exactly once by {outer.name} ({len(refs)} references)',
                kind='registered-once')
         # cancellation of the input is tested before its result() is taken
         for c in calls_in_func(f, 'result'):
@@ -135,9 +137,19 @@ def run(chk: Check) -> None:
             key = ffc.canon.key(c.func.value)
             nodes = ffc.cfg.nodes_containing(c)
             ok = bool(nodes) and all(('F', f'{key}.cancelled()') in ffc.at_call(m, c) for m in nodes)
-            chk.ob('FUT-cancel-before-result', f, ok, f'{src}.result() is taken only after {src}.cancelled() tested false '
+            chk.ob(cancel_rule, f, ok, f'{src}.result() is taken only after {src}.cancelled() tested false '
                    '(result() of a cancelled future raises CancelledError, which capture_exceptions would turn into an exception, '
                    'not a cancellation)', node=c, kind='cancelled-tested-first')
+    return total_paths
+
+
+def run(chk: Check) -> None:
+    prog = chk.prog
+    total_paths = adapters_deliver_exactly_once(chk)
+    # the adapters are what carries the outcome: a converted subscriber goes through create_task and plum_to_kiwi_future (whose paths are examined above), not
+    # through a second, unexamined mirror (shared with C16)
+    from .c16 import converted_subscriber
+    converted_subscriber(chk, 'FUT-adapters-used')
     chk.floor('FUT-exactly-once:paths', total_paths, 12)
 
     from .common import cancellation_delivered
